@@ -74,6 +74,14 @@ func prepare(c *GenCase) (*progIn, string) {
 	}
 	pi := &progIn{c: c, spec: map[string]string{}}
 	u := &Unit{ID: id, Src: src, Chk: chk, Stateful: chk.NGlobals > 0 || chk.HasInit}
+	if c.Alter {
+		alt := clone(c.Prog).(map[string]any)
+		alterInit(alt)
+		u.VMSrc, _, err = renderChecked(alt, id)
+		if err != nil {
+			return nil, "altered program does not type check: " + err.Error()
+		}
+	}
 	sigs := map[string]*Sig{}
 	for i := range chk.Sigs {
 		sigs[chk.Sigs[i].Name] = &chk.Sigs[i]
@@ -186,6 +194,26 @@ func TestDriver(t *testing.T) {
 	res.Stats["cases_by_family"] = fams
 	res.Stats["outcomes"] = outcomes
 
+	if os.Getenv("C14_SELFTEST") == "1" {
+		// binding self-test: report which cases the comparison flags, raise nothing
+		var flagged []string
+		for id, fs := range failing {
+			for _, f := range fs {
+				flagged = append(flagged, byID[id].c.ID+":"+fmt.Sprint(f.c.Key.Arg))
+			}
+		}
+		sort.Strings(flagged)
+		res.Stats["flagged"] = flagged
+		var nonpanic []string
+		for _, c := range dr.Cases {
+			if c.Go != "panic" {
+				nonpanic = append(nonpanic, byID[c.Key.Prog].c.ID+":"+fmt.Sprint(c.Key.Arg))
+			}
+		}
+		res.Stats["nonpanic"] = nonpanic
+		res.Sample(map[string]any{"selftest": len(flagged)})
+		return
+	}
 	// ---- violations: minimise (delta debugging on the syntax tree), then report with the construct signature
 	ids := make([]string, 0, len(failing))
 	for id := range failing {
@@ -210,7 +238,8 @@ func TestDriver(t *testing.T) {
 				fn = node(x)
 			}
 		}
-		construct := strings.Join(kindList(fn), "+")
+		_ = fn
+		construct := strings.Join(kindList(pruneFuncs(p.c.Prog, f.c.Key.Fn)["funcs"]), "+")
 		minSrc := ""
 		if budget > 0 && p.c.Fam != "expr" {
 			budget--
@@ -229,8 +258,181 @@ func TestDriver(t *testing.T) {
 			map[string]any{"id": p.c.ID, "source": p.u.Src, "func": f.c.Key.Fn, "args": f.c.Args, "go": f.c.Go, "vm": f.c.VM.Res, "fault": f.c.VM.Fault,
 				"minimised": minSrc, "failing_cases_in_program": len(failing[id])})
 	}
+	// ---- second clause: facts about every compiled program for spec/gosem/AbiMatches.tla
+	tr := vh.NewTrace("abi.ndjson")
+	calls := map[string][]map[string]any{}
+	perFn := map[string]int{}
+	for _, c := range dr.Cases {
+		p := byID[c.Key.Prog]
+		var sg *Sig
+		for i := range p.u.Funcs {
+			if p.u.Funcs[i].Sig.Name == c.Key.Fn {
+				sg = &p.u.Funcs[i].Sig
+			}
+		}
+		k := c.Key.Prog + ":" + c.Key.Fn
+		if sg == nil || !sg.Exported || perFn[k] >= 3 {
+			continue
+		}
+		perFn[k]++
+		calls[c.Key.Prog] = append(calls[c.Key.Prog], map[string]any{"name": lowerFirst(sg.Name), "np": len(sg.Params), "nres": len(sg.Results),
+			"halt": c.VM.Fault == "" && !strings.HasPrefix(c.VM.Res, "?") || strings.HasPrefix(c.VM.Res, "?stack-depth") || c.VM.Res == "?shape",
+			"underflow": strings.Contains(c.VM.Fault, "(INITSLOT)") || c.VM.Res == "?no-entry" || c.VM.Res == "?vm-go-panic",
+			"depth": c.VM.Depth})
+	}
+	for _, u := range units {
+		c := dr.Compiled[u.ID]
+		if c == nil {
+			continue
+		}
+		f, err := abiFacts(u.ID, "gen", c, u.Chk, calls[u.ID])
+		if err != nil {
+			res.Violate(map[string]any{"kind": "undecodable-bytecode"}, err.Error(), map[string]any{"source": u.Src})
+			continue
+		}
+		tr.Emit(f)
+		res.Traces++
+	}
+	probes(t, res, tr)
+	corpus(t, res, tr)
+	tr.Close()
 	if len(res.Samples) == 0 && len(dr.Cases) > 0 {
 		c := dr.Cases[0]
 		res.Sample(map[string]any{"source": byID[c.Key.Prog].u.Src, "func": c.Key.Fn, "args": c.Args, "go": c.Go, "vm": c.VM.Res})
 	}
+}
+
+// corpus: the repository's own contracts (copied to the scratch directory by the runner): compile only, ABI / debug facts.
+func corpus(t *testing.T, res *vh.Result, tr *vh.Trace) {
+	var dirs []string
+	if err := vh.ReadJSON("corpus.json", &dirs); err != nil {
+		return
+	}
+	for _, d := range dirs {
+		c := &Compiled{}
+		func() {
+			defer func() {
+				if r := recover(); r != nil {
+					c.Err = fmt.Errorf("compiler panic: %v", r)
+				}
+			}()
+			nf, di, err := compileDir(d)
+			c.NEF, c.DI, c.Err = nf, di, err
+		}()
+		name := filepath.Base(d)
+		if c.Err != nil {
+			res.Inc("corpus_not_compiled", 1)
+			res.AddDrift(map[string]any{"kind": "corpus-not-compiled", "dir": name, "error": c.Err.Error()})
+			continue
+		}
+		c.Man, c.ManErr = manifestOf(c.DI, name)
+		f, err := abiFacts("corpus_"+name, "corpus", c, nil, nil)
+		if err != nil {
+			res.Violate(map[string]any{"kind": "undecodable-bytecode", "corpus": name}, err.Error(), nil)
+			continue
+		}
+		tr.Emit(f)
+		res.Traces++
+		res.Inc("corpus_compiled", 1)
+		res.Count([]any{"corpus", name})
+	}
+}
+
+// Probe is a fixed source-text program of the check's register of dialect differences (tools/checks/c14.py DIALECT_PROBES):
+// a construct that the documentation does not exclude and that the unchanged compiler translates differently from Go.
+// A probe that still differs is a violation with the stable signature {part: dialect-probe, construct, kind}; one that
+// agrees (repaired compiler) is silent and stays as a regression test.
+type Probe struct {
+	Name string           `json:"name"`
+	Src  string           `json:"src"`
+	Fn   string           `json:"func"`
+	Args [][]any          `json:"args"`
+	Abi  bool             `json:"abi"` // judged by AbiMatches only
+}
+
+func probes(t *testing.T, res *vh.Result, tr *vh.Trace) {
+	var ps []Probe
+	if err := vh.ReadJSON("probes.json", &ps); err != nil {
+		return
+	}
+	var units []*Unit
+	byID := map[string]*Probe{}
+	for i := range ps {
+		p := &ps[i]
+		id := "probe_" + strings.ReplaceAll(p.Name, "-", "_")
+		u, err := makeUnit(id, strings.Replace(p.Src, "package p", "package "+id, 1), map[string][][]any{p.Fn: p.Args})
+		if err != nil || len(u.Funcs) != 1 {
+			t.Fatalf("dialect probe %s is not a valid Go program: %v", p.Name, err)
+		}
+		units = append(units, u)
+		byID[id] = p
+	}
+	dr, err := differential(scratch("goprobes"), units)
+	if err != nil {
+		t.Fatalf("probe run failed: %v", err)
+	}
+	state := map[string]string{}
+	for _, u := range units {
+		p := byID[u.ID]
+		if e, bad := dr.Refused[u.ID]; bad {
+			if strings.Contains(e.Error(), "compiler panic") {
+				state[p.Name] = "compiler-panic"
+				res.Violate(map[string]any{"part": "dialect-probe", "construct": p.Name, "kind": "compiler-panic"},
+					"the compiler panics on a valid program: "+e.Error(), map[string]any{"source": u.Src})
+			} else {
+				state[p.Name] = "refused: " + e.Error()
+			}
+			continue
+		}
+		if c := dr.Compiled[u.ID]; c != nil {
+			if f, err := abiFacts(u.ID, "probe", c, u.Chk, nil); err == nil {
+				tr.Emit(f)
+				res.Traces++
+			}
+		}
+	}
+	for _, c := range dr.Cases {
+		p := byID[c.Key.Prog]
+		res.Count([]any{"probe", p.Name, c.Args})
+		if p.Abi {
+			state[p.Name] = "abi"
+			continue
+		}
+		if c.Differs() {
+			if state[p.Name] == "" || state[p.Name] == "agrees" {
+				state[p.Name] = "differs"
+				res.Violate(map[string]any{"part": "dialect-probe", "construct": p.Name, "kind": classify(c.Go, c.VM.Res)},
+					fmt.Sprintf("%s(%v): go toolchain %s, compiled code in the VM %s %s", p.Fn, c.Args, c.Go, c.VM.Res, c.VM.Fault),
+					map[string]any{"source": p.Src, "func": p.Fn, "args": c.Args, "go": c.Go, "vm": c.VM.Res, "fault": c.VM.Fault})
+			}
+		} else if state[p.Name] == "" {
+			state[p.Name] = "agrees"
+		}
+	}
+	res.Stats["dialect_probes"] = state
+}
+
+// alterInit turns the first `s := 1` into `s := 2` (every result of a skeleton program that is not a panic depends on it).
+func alterInit(v any) bool {
+	switch x := v.(type) {
+	case map[string]any:
+		if (str(x["k"]) == "decl" && str(x["n"]) == "s") || (str(x["k"]) == "asg" && str(node(x["l"])["n"]) == "s") {
+			if e := node(x["e"]); str(e["k"]) == "lit" {
+				e["v"] = float64(toInt(e["v"]) + 1)
+				return true
+			}
+		}
+		for _, k := range sortedAnyKeys(x) {
+			if alterInit(x[k]) {
+				return true
+			}
+		}
+	case []any:
+		for _, c := range x {
+			if alterInit(c) {
+				return true
+			}
+		}
+	}
+	return false
 }
